@@ -221,6 +221,28 @@ def run_case(case):
                     add('rotation:from_to-does-not-map-from-onto-to:%s' % lab, '%s: q*from=%r expected %r' % (info, w, bn))
                 cells.add(json.dumps(['rotation', 'from_to', lab]))
                 continue
+            elif which == 'to_new_axes' and r.random() < 0.35:
+                # newx omitted: the documented default is the line of nodes, "along the z cross newz direction" - for every newz that is not
+                # parallel to z, however small its inclination or its norm (the angular momentum of a light body is a short vector; z x newz is
+                # (-newz.y, newz.x, 0) exactly, so the direction is well conditioned down to the implementation's cut-off of 1e-15 in |z x newz|)
+                th_ = 10 ** r.uniform(-13, 0.3) if r.random() < 0.7 else r.uniform(0.01, 3.13)
+                ph_ = r.uniform(0, 2 * math.pi)
+                s_ = 10 ** r.uniform(-12, 0) if r.random() < 0.5 else 10 ** r.uniform(-2, 2)
+                nz = [s_ * math.sin(th_) * math.cos(ph_), s_ * math.sin(th_) * math.sin(ph_), s_ * math.cos(th_)]
+                q = Rotation.to_new_axes(newz=nz)
+                info = 'newz=%r (inclined by %.3e to z, norm %.3e), newx omitted' % (nz, th_, s_)
+                cr_ = [-nz[1], nz[0], 0.0]
+                counters['to_new_axes_default_x'] = counters.get('to_new_axes_default_x', 0) + 1
+                if check_rotation(q, which, info) and nrm(cr_) >= 1e-13:
+                    counters['to_new_axes_default_x_with_z_cross_newz_below_1e-7'] = counters.get('to_new_axes_default_x_with_z_cross_newz_below_1e-7', 0) + int(nrm(cr_) < 1e-7)
+                    w = rot(q, nz)
+                    if gt(abs(w[0]), 256 * EPS * nrm(nz)) or gt(abs(w[1]), 256 * EPS * nrm(nz)) or not (w[2] >= 0):
+                        add('rotation:to_new_axes-newz-not-on-z', '%s: q*newz=%r' % (info, w))
+                    w = rot(q, cr_)
+                    if gt(abs(w[1]), 1e-12 * nrm(cr_)) or gt(abs(w[2]), 1e-12 * nrm(cr_)) or not (w[0] >= 0):
+                        add('rotation:to_new_axes-default-x-not-on-line-of-nodes', '%s: q*(z x newz)=%r, |z x newz|=%r' % (info, w, nrm(cr_)))
+                cells.add(json.dumps(['rotation', 'to_new_axes', 'default-x', int(math.log10(max(nrm(cr_), 1e-300)) // 3)]))
+                continue
             elif which == 'to_new_axes':
                 nz = rv(10 ** r.uniform(-2, 2))
                 nx = rv(10 ** r.uniform(-2, 2))
